@@ -130,7 +130,18 @@ def fresh_data(name, model_names, optional, schemas, frame_cls=pd.DataFrame):
 
 
 class TypesSchema(SchemaVal):
-    EXC = (SchemaError, OtherException)
+    """validate's channel (C02): a rejection is a SchemaError when eager and a SchemaErrors REPORT when lazy=True"""
+
+    EXC = (SchemaError, SchemaErrors, OtherException)
+
+    def validate(self, *args, **kwargs):
+        lazy = kwargs.get("lazy", args[5] if len(args) > 5 else False)
+        is_lazy = cur().ghost["interp"].truth(lazy, "lazy") if not isinstance(lazy, bool) else lazy
+        self.EXC = (SchemaErrors, OtherException) if is_lazy else (SchemaError, OtherException)
+        try:
+            return super().validate(*args, **kwargs)
+        finally:
+            self.EXC = TypesSchema.EXC
 
 
 def install_models(I, schemas):
@@ -277,8 +288,9 @@ class CheckTypes(Contract):
                                                                     options_forwarded(mine[0], self._opts))
             if mine[0].ret is not None:
                 return True, mine[0].ret
-            if mine[0].raised.cls is not SchemaError:
+            if mine[0].raised.cls not in (SchemaError, SchemaErrors):
                 return False, None  # an unrelated exception of validate propagates at once
+            # (a SchemaErrors report of a lazy validation is a REJECTION by this alternative like a SchemaError: the next one is tried)
             i += 1
         return False, None
 
@@ -324,7 +336,11 @@ class CheckTypes(Contract):
             out["raises_after_the_body_only_if_the_result_is_rejected"] = not acc
         if failed:
             last = failed[-1]
-            if exc.cls is SchemaErrors:
+            if exc.cls is SchemaErrors and any(exc is c.raised for c in failed):
+                # lazy=True: the report of a rejecting validation is handed to the caller as it is (for a Union: of one of its alternatives,
+                # all of which were tried - see the gate clause)
+                out["lazy_report_is_one_of_the_rejecting_validations_of_the_value"] = any(exc is c.raised for c in failed if c.obj is last.obj)
+            elif exc.cls is SchemaErrors:
                 errs = exc.attrs.get("schema_errors")
                 out["schema_errors_reports_every_failed_alternative"] = isinstance(errs, (list, ListObj)) and len(errs) == len(
                     [c for c in failed if c.obj is last.obj]) and len(errs) > 1 and exc.attrs.get("data") is last.obj
